@@ -307,7 +307,19 @@ def replay(fz, w):
     fz.offer(Block, raw, m, target, [("without_block", before), ("with_block", cs)], rb.ts, w, (kind, pos), len(rb.header_enc()))
 
 
+
+def _replay_route_story(spec):
+    from skv.props import c09
+    env.boot()
+    mon = c09.route_histories(random.Random(1), 8, 14, c09.all_classes(), "replay-route", story_share=0.8)
+    return {"evaluations": mon.c.get("deliveries", 0), "distinct": mon.c.get("download_route_stories", 0),
+            "violations": [{"key": "node-route:" + v["key"], "msg": v["msg"], "witness": v["witness"]} for v in mon.viol[:6]],
+            "counters": {"route_lane_stories": mon.c.get("download_route_stories", 0)}, "digests": []}
+
 def run_shard(spec):
+    if "replay" in spec and isinstance(spec["replay"], dict) and spec["replay"].get("kind") == "download-route-story":
+        # (the story is re-run with this check's classes on the current tree; the recorded chain is for the reader)
+        return _replay_route_story(spec)
     fz = Fuzz()
     if "replay" in spec:
         env.boot(fake_scrypt="recorded" not in spec["replay"])
